@@ -1,4 +1,4 @@
 \* every triangle on the 5x5 lattice of a 2x2-pixel grid (border vertices included), all flags, every non-empty subset of two levels
-CONSTANTS S = 2  N = 2  Ks = {0, 1}  Shape = "tri"  InputPolys <- MCInputs  Impl = "reference"
+CONSTANTS S = 2  N = 2  Ks = {0, 1}  Shape = "tri"  InputPolys <- MCInputs  Impl = "code"
 SPECIFICATION MCSpec
 INVARIANTS C06_Total C09_Reject C01_NoCrossing C05_WellFormed C04_VerticesAreCentres C07C08_FunctionOfLevel C18_AreaPreserved
